@@ -19,6 +19,7 @@ package configmap
 import (
 	"fmt"
 	"regexp"
+	"sort"
 	"strconv"
 	"strings"
 
@@ -71,10 +72,22 @@ func (c *tcpSvcConverter) Sync() {
 	if tcpservices == nil {
 		tcpservices = c.changed.TCPConfigMapDataCur
 	}
-	for k, v := range tcpservices {
+	// distinct keys can name the same port, eg "7000" and "07000",
+	// so the order they are read cannot change between two syncs
+	keys := make([]string, 0, len(tcpservices))
+	for k := range tcpservices {
+		keys = append(keys, k)
+	}
+	sort.Strings(keys)
+	for _, k := range keys {
+		v := tcpservices[k]
 		publicport, err := strconv.Atoi(k)
 		if err != nil {
 			c.logger.Warn("skipping invalid public listening port of TCP service: %s", k)
+			continue
+		}
+		if c.haproxy.TCPBackends().FindTCPBackend(publicport) != nil {
+			c.logger.Warn("skipping TCP service on key '%s': public port %d was already configured", k, publicport)
 			continue
 		}
 		svc := c.parseService(v)
